@@ -23,6 +23,12 @@ type Shape struct {
 
 var CtxKinds = []string{"cond1", "condd", "begin", "let", "letseq", "scope", "and", "or"}
 var PreKinds = []string{"none", "def", "for", "trace", "varargs"}
+
+// ExtraPreKinds (run with Base = val only): the arity boundary of variadic functions (self call with
+// exactly the required arguments / one optional argument) and forms that touch the generator's
+// scope bookkeeping before the tail call (empty newScope, nested empty scopes, let without
+// bindings, empty begin, a loop left by break / continue out of an inner let).
+var ExtraPreKinds = []string{"varargs0", "varargs1", "emptyscope", "nestedemptyscope", "emptylet", "emptybegin", "forbreak", "forcontinue"}
 var BaseKinds = []string{"val", "unbound", "other"}
 
 func (sh Shape) String() string {
@@ -71,8 +77,11 @@ func (sh Shape) selfCall(vis []string) *r.Node {
 	}
 	acc := r.Cond(call("<", r.Var("n"), r.Int(3)), call("append", r.Var("a"), clo), r.Var("a"))
 	args := []*r.Node{call("-", r.Var("n"), r.Int(1)), acc, call("+", r.Var("s"), r.Var("n"))}
-	if sh.Pre == "varargs" {
+	switch sh.Pre {
+	case "varargs":
 		args = append(args, r.Var("n"), r.Int(7))
+	case "varargs1":
+		args = append(args, r.Var("n"))
 	}
 	return call("f", args...)
 }
@@ -127,6 +136,24 @@ func (sh Shape) Defn() *r.Node {
 			r.For("", r.Def("i", r.Int(0)), call("<", r.Var("i"), r.Int(2)), r.Set("i", call("+", r.Var("i"), r.Int(1))),
 				r.Set("w", call("+", r.Var("w"), r.Var("i"), r.Var("n"))))}
 		vis = []string{"w"}
+	case "emptyscope":
+		pre = []*r.Node{r.Scope()}
+	case "nestedemptyscope":
+		pre = []*r.Node{r.Scope(r.Scope(), r.Scope(r.Scope()))}
+	case "emptylet":
+		pre = []*r.Node{r.Let(false, nil, nil, r.Int(1)), r.Let(true, nil, nil, r.Scope())}
+	case "emptybegin":
+		pre = []*r.Node{r.Begin(), r.Scope(r.Begin())}
+	case "forbreak":
+		pre = []*r.Node{r.Def("w", r.Int(0)),
+			r.For("", r.Def("i", r.Int(0)), call("<", r.Var("i"), r.Int(5)), r.Set("i", call("+", r.Var("i"), r.Int(1))),
+				r.Let(false, []string{"q"}, []*r.Node{r.Var("i")}, r.Scope(r.Set("w", call("+", r.Var("w"), r.Var("q"))), r.Cond(call(">", r.Var("q"), r.Int(1)), r.Break(""), r.Nil()))))}
+		vis = []string{"w"}
+	case "forcontinue":
+		pre = []*r.Node{r.Def("w", r.Int(0)),
+			r.For("", r.Def("i", r.Int(0)), call("<", r.Var("i"), r.Int(3)), r.Set("i", call("+", r.Var("i"), r.Int(1))),
+				r.Let(false, []string{"q"}, []*r.Node{r.Var("i")}, r.Scope(), r.Cond(call("==", r.Var("q"), r.Int(1)), r.Cont(""), r.Nil()), r.Set("w", call("+", r.Var("w"), r.Var("q")))))}
+		vis = []string{"w"}
 	case "trace":
 		pre = []*r.Node{r.Cond(call("<", r.Var("n"), r.Int(3)), call("trace", r.Var("n")), r.Nil())}
 	}
@@ -136,7 +163,7 @@ func (sh Shape) Defn() *r.Node {
 	}
 	params := []string{"n", "a", "s"}
 	rest := ""
-	if sh.Pre == "varargs" {
+	if strings.HasPrefix(sh.Pre, "varargs") {
 		rest = "r"
 	}
 	return r.Defn("f", params, rest, r.Cond(call("==", r.Var("n"), r.Int(0)), base, rec))
